@@ -4,6 +4,7 @@ import (
 	"errors"
 	"fmt"
 	"io"
+	"math"
 	"os"
 	"sort"
 	"sync"
@@ -70,6 +71,7 @@ type crashFS struct {
 	idsUsed     map[uint64]string
 	dupID       string
 	faultsFired map[string]int
+	maxCreate   uint64 // Create of a larger file fails with ENOSPC (0 = no limit)
 	// base: the disk right after the last crash; acts are the actions since then,
 	// numbered from baseCount
 	base      *crashFS
@@ -142,6 +144,18 @@ func (c *crashFS) Create(dir, name string, size uint64) (types.WritableFile, err
 	c.mu.Lock()
 	defer c.mu.Unlock()
 	a := &action{kind: actCreate, name: name, size: size}
+	if c.maxCreate > 0 && size > c.maxCreate && size <= math.MaxInt32 {
+		// disk full (metafuzz: a damaged SizeLimit must not make THIS fake allocate gigabytes)
+		a.failed = true
+		c.acts = append(c.acts, a)
+		return nil, errors.New("no space left on device")
+	}
+	if size > math.MaxInt32 {
+		// fs.Create refuses such sizes ("maximum file size is ..."); do not allocate them here
+		a.failed = true
+		c.acts = append(c.acts, a)
+		return nil, fmt.Errorf("maximum file size is %d bytes", math.MaxInt32)
+	}
 	if _, ok := c.files[name]; ok {
 		a.failed = true
 		c.acts = append(c.acts, a)
@@ -215,6 +229,9 @@ func (h *chandle) ReadAt(p []byte, off int64) (int, error) {
 	f := h.file()
 	if f == nil {
 		return 0, os.ErrNotExist
+	}
+	if off < 0 {
+		return 0, errors.New("readat: negative offset") // as *os.File
 	}
 	if off >= int64(len(f.data)) {
 		return 0, io.EOF
